@@ -60,7 +60,8 @@ package nasType
 //@   ensures implies(SuImsiT(a.Buffer) && a.Buffer[7] < 10, suci[SuOH(a.Buffer)] == 48 + a.Buffer[7])
 //@   ensures implies(SuImsiT(a.Buffer) && a.Buffer[7] >= 10 && a.Buffer[7] < 100, suci[SuOH(a.Buffer)] == 48 + a.Buffer[7] / 10 && suci[SuOH(a.Buffer) + 1] == 48 + a.Buffer[7] % 10)
 //@   ensures implies(SuImsiT(a.Buffer) && a.Buffer[7] >= 100, suci[SuOH(a.Buffer)] == 48 + a.Buffer[7] / 100 && suci[SuOH(a.Buffer) + 1] == 48 + (a.Buffer[7] / 10) % 10 && suci[SuOH(a.Buffer) + 2] == 48 + a.Buffer[7] % 10)
-//@   ensures implies(SuImsiT(a.Buffer), forall(j, 0, SuSL(a.Buffer), suci[SuOS(a.Buffer) + j] == HexCh(SuSNib(a.Buffer, j))))
+//@   ensures implies(SuImsiT(a.Buffer) && a.Buffer[6] == 0, forall(j, 0, 2*(len(a.Buffer) - 8) - ite((a.Buffer[len(a.Buffer)-1] >> 4) == 15, 1, 0), suci[SuOS(a.Buffer) + j] == HexCh(ite(j & 1 == 0, a.Buffer[8 + (j >> 1)] & 15, a.Buffer[8 + (j >> 1)] >> 4))))
+//@   ensures implies(SuImsiT(a.Buffer) && a.Buffer[6] != 0, forall(j, 0, 2*(len(a.Buffer) - 8), suci[SuOS(a.Buffer) + j] == HexCh(ite(j & 1 == 0, a.Buffer[8 + (j >> 1)] >> 4, a.Buffer[8 + (j >> 1)] & 15))))
 //@ end
 
 //@ func (a *MobileIdentity5GS) GetMCC() (s)
